@@ -786,7 +786,26 @@ def oracle (st : St) (op : List String) (ret : String) (cmds : List Json)
         (if conv then [] else [s!"SyncConverges{cls}@{h}"]) ++
         (if stored then [s!"SyncIdempotent{if conv then "/settle" else cls}@{h}"] else [])
     | _ => []
-  perCa ++ panic ++ syncIdem ++ perCmd ++ settle
+  -- `sync <child> <parent>` (a parent in the same krill: request and reply in this op): once the parent has the old key
+  -- of a class as REVOKED, the child's roll of that class is finished - the confirmation ends the old-key phase of the
+  -- class it was given for, whatever that class is called on either side (C04 "always completes")
+  let rollDone := match op with
+    | ["sync", h, p] =>
+      if !c04 then [] else
+      match st.tab.strs.idxOf? ("h:" ++ h), st.tab.strs.idxOf? ("h:" ++ p), post.find? (·.1 == h), post.find? (·.1 == p) with
+      | some hid, some pid, some (_, s), some (_, ps) =>
+        s.ca.classes.foldl (fun acc (_, rc) =>
+          match rc.keys with
+          | .rollOld _ o =>
+            let revokedAtParent : Bool := match AMap.get ps.ca.children hid with
+              | some ch => AMap.get ch.usedKeys o.id == some UsedKey.revoked
+              | none => false
+            if rc.parent == pid && revokedAtParent then
+              acc ++ [s!"RollCompletes/revocation-confirmed-roll-not-finished@{h}"] else acc
+          | _ => acc) []
+      | _, _, _, _ => []
+    | _ => []
+  perCa ++ panic ++ syncIdem ++ perCmd ++ settle ++ rollDone
 
 /-! ## One step -/
 
